@@ -130,6 +130,11 @@ def judge_levels(ctx, case):
     present = sorted(set(frame[var].tolist()))
     lv = [present[i] for i in perm]
     ref = None if case.get("ref") is None else lv[case["ref"]]
+    outer = None
+    if fn in ("C(C)Sum", "C(C)Treatment"):
+        # the inner call fixes the level order, the outer one only says how to code: C(C(f, levels=lv), Sum)
+        outer = fn[4:] if ref is None else f"{fn[4:]}({ref!r})"
+        fn = "C(S" if fn.endswith("Sum") else "C(T"
     nested = fn.startswith("C(")
     relevel = fn.endswith("*")  # C(T(f, levels=l1), levels=lv): the outer levels= decides order and default reference
     inner = fn[2:].rstrip("*") if nested else fn
@@ -138,7 +143,9 @@ def judge_levels(ctx, case):
         args += f", {ref!r}" if inner in ("T", "S") else (f", Treatment({ref!r})" if inner == "C" else "")
     args += ", levels=l1" if relevel else ", levels=lv"
     call = f"{inner}({args})"
-    if nested:
+    if outer is not None:
+        call = f"C(C({var}, levels=lv), {outer})"
+    elif nested:
         call = f"C({call}, levels=lv)" if relevel else f"C({call})"  # the outer C() inherits the coding (and, unless it is given its own, the level order) from the inner call
     fn = inner
     formula = f"y ~ {'1' if case['intercept'] else '0'} + {call}"
@@ -391,7 +398,7 @@ def _object_cases():
 def _levels_cases(maxn):
     for n in range(2, maxn + 1):
         for perm in itertools.permutations(range(n)):
-            for fn in ("C", "T", "S", "C(T", "C(C", "C(S", "C(T*", "C(S*"):
+            for fn in ("C", "T", "S", "C(T", "C(C", "C(S", "C(T*", "C(S*", "C(C)Sum", "C(C)Treatment"):
                 for ic in (True, False):
                     for is_int in (False, True):
                         yield {"kind": "levels", "fn": fn, "perm": list(perm), "n": n, "int": is_int, "intercept": ic, "ref": None}
